@@ -8,9 +8,10 @@ import json, os, shutil, subprocess, sys, re, time
 
 cid, mut, dest, run, needs, checks = sys.argv[1:7]
 moddir = sys.argv[7] if len(sys.argv) > 7 else "module"
-wt = f"/tmp/wt/{cid}"
+wt = f"/tmp/wt/{os.environ.get('WT_PREFIX', '')}{cid}"
+rnd = os.environ.get("SEED_ROUND", "")
 src = f"{wt}/SEEDED/{mut}"
-out = f"/verif/seeded/{cid}-{mut}"
+out = f"/verif/seeded/{cid}-{rnd}{mut}"
 v = subprocess.run(["/verif/tools/seed/verify.sh", wt, src, dest, run, moddir], stdout=subprocess.PIPE, stderr=subprocess.STDOUT, text=True).stdout
 m = re.search(r"RESULT base_demo=(\w+) suite_with_patch=(\w+) demo_with_patch=(\w+)", v)
 print(v[-1500:])
@@ -30,7 +31,7 @@ os.makedirs(out, exist_ok=True)
 for f in os.listdir(src):
     shutil.copy(f"{src}/{f}", f"{out}/{f}")
 meta = {
-    "id": f"{cid}-{mut}",
+    "id": f"{cid}-{rnd}{mut}",
     "property": cid,
     "source": "independent sub-agent given only the property text and a scratch worktree",
     "needs_to_manifest": needs,
